@@ -1,3 +1,4 @@
+import WmModel.Props.C05Prod
 import WmModel.Props.C05Live
 import WmModel.Props.C05Reg
 import WmModel.Props.C04Exit
@@ -21,3 +22,6 @@ import WmModel.Props.C05
 #print axioms Wm.GcReg.blocking_deadlock_needs_nested_publish
 #print axioms Wm.GcReg.closing_no_deadlock
 #print axioms Wm.GcReg.d11_has_nested_publish
+#print axioms Wm.GcProd.blocking_publish_returns_only_after_ack
+#print axioms Wm.GcProd.prod_witness
+#print axioms Wm.GcProd.prod_sender_done_waits_for_msub
